@@ -245,6 +245,65 @@ func c11Families(thorough bool) []*engine.IFamily {
 			}
 			return r
 		}}
+	// ---- a snapshot handed back to the API as new data (an application mirrors what it got from a peer into its own
+	// server feature, or restores an emptied function from a snapshot it kept): the snapshot stays what it was
+	handback := &engine.IFamily{Name: "snapshots-handed-back-as-new-data", Chunks: len(specs),
+		Rule: "every list-typed function with numeric identifiers: the peer announces a list whose items are NOT in identifier order (3,1,2); DataCopy of the remote feature is photographed (structurally and as text) and handed to the local API as new data of the still empty local function — FeatureLocal.UpdateData with a partial filter, FeatureLocal.SetData, FeatureRemote.UpdateData without persistence — followed by one more local update; the snapshot and the remote feature's data still equal their photos; non-trivial: all",
+		Run: func(chunk int) engine.IResult {
+			var r engine.IResult
+			sp := specs[chunk]
+			now := staticNow
+			vtime.StaticNow = &now
+			defer func() { vtime.StaticNow = nil }()
+			fail := func(clause, detail string) {
+				r.NFails++
+				key := clause + " | type=" + sp.name
+				for _, f := range r.Fails {
+					if f.Key == key {
+						return
+					}
+				}
+				r.Fails = append(r.Fails, engine.IFail{Key: key, Msg: detail, Input: sp.name})
+			}
+			unordered := []itemSpec{{id: 3, pay: "11"}, {id: 1, pay: "22"}, {id: 2, pay: "12"}}
+			res := rt.Execute(rt.Config{}, func() {
+				for _, how := range []string{"UpdateData(partial)", "SetData", "remote UpdateData(no persistence)"} {
+					c := newC11World(sp)
+					c.applyVia("notify", updCase{unordered, filterSpec{}})
+					snapshot := c.rsrv.DataCopy(sp.fn)
+					if snapshot == nil || reflect.ValueOf(snapshot).IsNil() {
+						continue
+					}
+					r.Evals++
+					r.Nontrivial++
+					clone, photo := refl.Clone(snapshot), world.JSON(snapshot)
+					switch how {
+					case "UpdateData(partial)":
+						c.srv.UpdateData(sp.fn, snapshot, model.NewFilterTypePartial(), nil)
+					case "SetData":
+						c.srv.SetData(sp.fn, snapshot)
+					default:
+						_, _ = c.rsrv.UpdateData(false, sp.fn, snapshot, model.NewFilterTypePartial(), nil)
+					}
+					rt.WaitIdle()
+					check := func(when string) {
+						if !reflect.DeepEqual(snapshot, clone) || world.JSON(snapshot) != photo {
+							fail("a snapshot handed to the API as new data changed "+when+" ("+how+")", fmt.Sprintf("photo=%.300s\n now=%.300s", photo, world.JSON(snapshot)))
+						}
+						if now := world.JSON(c.rsrv.DataCopy(sp.fn)); now != photo {
+							fail("the data of the feature the snapshot came from changed "+when+" ("+how+")", fmt.Sprintf("photo=%.300s\n now=%.300s", photo, now))
+						}
+					}
+					check("by that call")
+					c.applyVia("local", updCase{[]itemSpec{{id: 1, pay: "1-"}}, filterSpec{partial: true}})
+					check("by a later update of the local function")
+				}
+			})
+			for _, p := range res.Panics {
+				fail("panic in "+p.Frame, p.Value)
+			}
+			return r
+		}}
 	uc := &engine.IFamily{Name: "use-case-snapshots", Chunks: 1,
 		Rule: "snapshots of nodeManagementUseCaseData (DataCopy of the local node management feature, and the use-case data of a remote device after its reply) x every ordered pair of later use-case operations {add new, add existing (overwrite), set availability, remove, remove all} on the same and on another entity / a later reply; non-trivial: all",
 		Run: func(chunk int) engine.IResult {
@@ -510,7 +569,7 @@ func c11Families(thorough bool) []*engine.IFamily {
 			}
 			return r
 		}}
-	return []*engine.IFamily{lists, uc, structs, hb}
+	return []*engine.IFamily{lists, handback, uc, structs, hb}
 }
 
 func c11Scenarios() []*engine.SScenario {
